@@ -5,8 +5,9 @@ prop, n = sys.argv[1], sys.argv[2]
 caught = [x for x in sys.argv[3].split(',') if x]
 missed = [x for x in sys.argv[4].split(',') if x]
 note = sys.argv[5] if len(sys.argv) > 5 else ""
-src = f"/tmp/{prop}-out"
-dst = f"/verif/seeded/{prop}-{n}"
+rnd = os.environ.get("SEED_ROUND", "")
+src = f"/tmp/{prop}-out{rnd}"
+dst = f"/verif/seeded/{prop}-{n}" if not rnd else f"/verif/seeded/{prop}-{int(n)+2*(int(rnd)-1)}"
 os.makedirs(dst, exist_ok=True)
 shutil.copy(f"{src}/change{n}.diff", f"{dst}/patch.diff")
 shutil.copy(f"{src}/demo{n}_test.go", f"{dst}/demo_test.go.txt")
@@ -14,7 +15,7 @@ desc = open(f"{src}/change{n}.md").read() if os.path.exists(f"{src}/change{n}.md
 head = subprocess.run(["git", "-C", "/repo", "log", "--format=%h", "-1"], capture_output=True, text=True).stdout.strip()
 meta = {
   "breaks_property": prop,
-  "origin": "independent sub-agent given only the property text and a scratch worktree",
+  "origin": "independent sub-agent given only the property text and a scratch worktree" + (" (round %s: also told the one-line descriptions of the round-1 changes, to avoid repeats)" % rnd if rnd else ""),
   "description_by_author": desc,
   "applies_to_repo_commit": head,
   "confirmed": {
